@@ -148,3 +148,24 @@ def callback_with_a_real_filter_sees_exactly_its_telegrams(pattern, dst, outgoin
     if outgoing and not match_outgoing:
         want = False
     assert cb.is_within_filter(t) == bool(want), (pattern, str(dst), outgoing, match_outgoing)
+
+
+# ------------------------------------------------------------------ registration: what "gave none" means
+
+
+@lemma("C34", params=dict(filters=Choice(None, ListOf(), ListOf(FILTER)), addresses=Choice(None, ListOf(), ListOf(GA)), outgoing=Bool(), tq=Obj(TelegramQueue, telegram_received_cbs=Choice(ListOf(), ListOf(CALLBACK)), xknx=Obj(Holder))))
+def a_callback_matches_everything_only_if_it_gave_neither_filters_nor_addresses(filters, addresses, outgoing, tq):
+    """register_telegram_received_cb / Callback.__init__: the callback matches all telegrams exactly when
+    neither address filters nor group addresses were given (None); an explicit list - also an empty one,
+    which the owner may fill later - restricts it to that list. The lists are kept as given (not copied),
+    the callback is appended once, returned, and unregistering removes exactly it."""
+    before = list(tq.telegram_received_cbs)
+    rec = Recorder(False)
+    cb = tq.register_telegram_received_cb(rec, address_filters=filters, group_addresses=addresses, match_for_outgoing=outgoing)
+    assert cb._match_all == (filters is None and addresses is None)
+    assert cb._match_outgoing == outgoing and cb.callback is rec
+    assert (cb.address_filters is filters) if filters is not None else (cb.address_filters == [])
+    assert (cb.group_addresses is addresses) if addresses is not None else (cb.group_addresses == [])
+    assert tq.telegram_received_cbs == before + [cb]
+    tq.unregister_telegram_received_cb(cb)
+    assert tq.telegram_received_cbs == before
